@@ -98,6 +98,7 @@ theorem scaleExponent_rel (hc : Rel c) (i : Int) : ∃ e, scaleExponent c i = .o
 def IntOK (c : Cfg) (b : Bytes) (r : Except Err IntPart) : Prop :=
   match r with
   | .ok ip => Adv b ip.start ∧ Adv ip.start ip.byte ∧ ip.nDigits ≤ ip.byte.index - ip.start.index ∧
+      ip.integerDigits.length ≤ ip.start.slc.length - ip.start.index ∧
       (c.bytesContiguous = true → ip.nDigits = ip.byte.index - ip.start.index ∧
         ip.integerDigits = (ip.start.slc.drop ip.start.index).take (ip.byte.index - ip.start.index))
   | .error e => ErrOK b.slc.length e
@@ -131,7 +132,8 @@ theorem integerPhase_tot (hc : Rel c) (b : Bytes) (hv : b.index ≤ b.slc.length
       simp only
       split
       · exact ha0.valid
-      · refine ⟨ha0, ha12, count_diff_le (c := c) ha12, ?_⟩
+      · refine ⟨ha0, ha12, count_diff_le (c := c) ha12, ?_, ?_⟩
+        · simp only [List.length_take, List.length_drop]; omega
         intro hcont
         have hcc : ∀ x : Bytes, x.currentCount c = x.index := by
           intro x; unfold Bytes.currentCount; rw [if_pos hcont]
@@ -145,7 +147,8 @@ theorem integerPhase_tot (hc : Rel c) (b : Bytes) (hv : b.index ≤ b.slc.length
 def FracOK (byte : Bytes) (r : Except Err FracPart) : Prop :=
   match r with
   | .ok fp => Adv byte fp.byte ∧ (fp.fraction = none → fp.nAfterDot = 0) ∧
-      fp.nAfterDot ≤ fp.byte.index - byte.index ∧ fp.exponent.natAbs ≤ 5 * fp.nAfterDot
+      fp.nAfterDot ≤ fp.byte.index - byte.index ∧ fp.exponent.natAbs ≤ 5 * fp.nAfterDot ∧
+      (∀ fd, fp.fraction = some fd → fd.length ≤ byte.slc.length)
   | .error e => ErrOK byte.slc.length e
 
 theorem fractionPhase_tot (hc : Rel c) (o : POpts) (byte : Bytes) (m : Nat) (hv : byte.index ≤ byte.slc.length) :
@@ -177,11 +180,15 @@ theorem fractionPhase_tot (hc : Rel c) (o : POpts) (byte : Bytes) (m : Nat) (hv 
     split
     · have := (ha0.trans ha12).valid
       exact this
-    · refine ⟨ha0.trans ha12, by simp, ?_, ?_⟩
+    · refine ⟨ha0.trans ha12, by simp, ?_, ?_, ?_⟩
       · have h1 := ha0.mono; have h2 := ha12.mono
         simp only at h1 h2 ⊢; omega
       · simpa using hbound
-  · exact ⟨Adv.refl byte hv, fun _ => rfl, Nat.zero_le _, by simp⟩
+      · intro fd hfd
+        simp only [Option.some.injEq] at hfd
+        subst hfd
+        simp only [List.length_take, List.length_drop]; omega
+  · exact ⟨Adv.refl byte hv, fun _ => rfl, Nat.zero_le _, by simp, by simp⟩
 
 /-- what `exponentPhase` guarantees (`e0` = the implicit exponent handed in) -/
 def ExpOK (byte : Bytes) (e0 : Int) (r : Except Err ExpPart) : Prop :=
